@@ -83,6 +83,9 @@ def instances(tier, seed):
             out.append(("core", dict(params=["a b", "a"], ret=None, maxrank=mr, switch=sw, tc=tc, tree_first=True)))
     for tc in ("typeguard", "beartype"):
         out.append(("core", dict(params=["*#v", "tree"], ret=None, maxrank=mr, switch=0, tc=tc, tree_variadic=True)))
+        # string annotations (as under `from __future__ import annotations`)
+        for ps, r in ((["a b", "c a"], None), (["a", "a"], "a"), (["a b"], "b a")):
+            out.append(("core", dict(params=ps, ret=r, maxrank=mr, switch=0, tc=tc, stringify=True)))
     # misuse -> AnnotationError
     for ps, r in ([["a+1"], None], [["a"], "b+1"], [["?a"], None], [["#a", "a+1"], None], [["a"], "?a"]):
         for tc in ("typeguard", "beartype"):
@@ -206,7 +209,8 @@ def build_fn(inst, V):
         anns = anns + [None]
         return fnlib.build(ps, inst["ret"], V.ARR, inst["tc"], "function", None, anns=anns,
                            defaults={len(ps) - 1: default_array(V.ARR)})
-    return fnlib.build(ps, inst["ret"], V.ARR, inst["tc"], "function", None, anns=anns)
+    return fnlib.build(ps, inst["ret"], V.ARR, inst["tc"], "function", None, anns=anns,
+                       stringify=bool(inst.get("stringify")))
 
 
 _union_cache = {}
@@ -309,7 +313,7 @@ def scenario(inst, V):
     values = [V.arr(s) for s in shapes]
     fnlib.HOLD["ret"] = V.arr(rshape) if rshape is not None else None
     fnlib.HOLD["body_exc"] = None
-    ck = (repr(params), ret, V.ARR, inst["tc"], bool(inst.get("with_default")))
+    ck = (repr(params), ret, V.ARR, inst["tc"], bool(inst.get("with_default")), bool(inst.get("stringify")))
     if ck not in _union_cache:
         _union_cache[ck] = build_fn(inst, V)
     fn, pn = _union_cache[ck]
